@@ -120,6 +120,11 @@ def gen_prelude(rng, hist, imm_any=False):
             if rng.random() < 0.2:
                 regs.append({"op": "reg", "kind": k, "fn": j})  # repeated registration
     rng.shuffle(regs)
+    if imm_any:
+        # finding K17 (listeners registered after a re-entrantly completing one see the API object as the nested
+        # call left it): with re-entrant completions the EE's service-started listener is registered last
+        ee = [r for r in regs if r["kind"] == "ss" and r["fn"] == 0]
+        regs = [r for r in regs if not (r["kind"] == "ss" and r["fn"] == 0)] + ee
     ops += regs
     for o in range(rng.randint(0, 3)):
         ops.append({"op": "attach", "o": o})
@@ -195,7 +200,7 @@ def run_impl(case, scratch=None):
             ops.append(op)
             return apply_op(run, op)
 
-        imm_any = any(imm)
+        imm_any = any(imm) or any(case.get("imm_other") or [])
         for op in gen_prelude(rng, case.get("hist"), imm_any):
             do(op)
         hist = case.get("hist")
@@ -217,7 +222,10 @@ def run_impl(case, scratch=None):
                 else:
                     rec = do({"op": "attach", "o": o})
             elif hist and rng.random() < 0.05:
-                rec = do({"op": "reg", "kind": rng.choice(["ts", "ss", "sf", "tf"]), "fn": rng.randint(0, 2)})
+                kind, fn = rng.choice(["ts", "ss", "sf", "tf"]), rng.randint(0, 2)
+                if imm_any and kind == "ss":
+                    fn = 0  # finding K17: no service-started listener after the re-entrantly completing one
+                rec = do({"op": "reg", "kind": kind, "fn": fn})
             else:
                 p = run.pending
                 pick = case.get("pick", "random")
